@@ -527,6 +527,7 @@ class HTTPWARCRecorderSession(BaseWARCRecorderSession):
         self._request_record = None
         self._response_record = None
         self._response_temp_file = self._new_temp_file(hint='warcsesrsp')
+        self._response_payload_offset = None
 
     def close(self):
         super().close()
@@ -579,11 +580,18 @@ class HTTPWARCRecorderSession(BaseWARCRecorderSession):
             WARCRecord.WARC_RECORD_ID]
         record.block_file = self._response_temp_file
 
+        # Everything received so far is the status line and header block
+        # exactly as the server formatted it; the payload starts here.
+        self._response_payload_offset = self._response_temp_file.tell()
+
     def response_data(self, data: bytes):
         self._response_temp_file.write(data)
 
     def end_response(self, response: HTTPResponse):
-        payload_offset = len(response.to_bytes())
+        payload_offset = self._response_payload_offset
+
+        if payload_offset is None:
+            payload_offset = len(response.to_bytes())
 
         self._response_record.block_file.seek(0)
         self._recorder.set_length_and_maybe_checksums(
